@@ -1,10 +1,15 @@
 import PyramidModel.Prelude
 import PyramidModel.ActionsSpec
+import PyramidModel.ActionsConfig
 /-! Driver for C04: one JSON case per line.
 in : {"top":[node,…]}   node = {"id":n,"disc":null|n|{"dep":k,"a":null|n,"b":null|n},"order":i,"path":[n,…],"adds":[node,…]}
 out: {"out":"ok"|"conflict"|"regress"|"fuel","keys":[sorted…],"regress":null|[order,min_order],
       "log":[ids in execution order],"discs":[[id,key|null] of the executed actions],"wf":ids distinct,
-      "spec":null | {"out","keys","log"}   (the declarative phase spec; only for programs without adds and thunks)} -/
+      "spec":null | {"out","keys","log"}   (the declarative phase spec; only for programs without adds and thunks)}
+in : {"prog":[stmt,…],"autocommit":bool}   stmt = {"op":"declare","id":n,"disc":…,"order":i,"body":[stmt,…]}
+       | {"op":"include","spec":n,"rp":null|n,"body":[stmt,…]} | {"op":"commit"}
+out: {"commits":[{"out","keys","regress","log","discs"}],"pending":[[id,path]],"declared":[[id,path,route_prefix]],
+      "bad":bool,"aborted":bool}   or, with autocommit, {"log","discs","declared"} -/
 open Pyr Pyr.Actions Lean
 
 structure Node where
@@ -50,7 +55,63 @@ def outcomeJson (o : Outcome) : List (String × Json) :=
   | .regress a b => [("out", "regress"), ("keys", toJson ([] : List Nat)), ("regress", toJson [a, b])]
   | .fuel => [("out", "fuel"), ("keys", toJson ([] : List Nat)), ("regress", Json.null)]
 
+def parseDisc (dj : Json) : Except String Disc :=
+  match dj with
+  | .null => pure Disc.none
+  | .obj _ => do
+    let dep : Nat ← getAs dj "dep"
+    let a : Option Nat ← getAs dj "a"
+    let b : Option Nat ← getAs dj "b"
+    pure (Disc.deferred dep a b)
+  | v => do
+    let n : Nat ← fromJson? v
+    pure (Disc.val n)
+
+def parseStmts : Nat → Json → Except String Stmts
+  | 0, _ => throw "nesting too deep"
+  | depth + 1, j => do
+  match j with
+  | .arr xs =>
+    let mut out : List Stmt := []
+    for x in xs.toList do
+      let op : String ← getAs x "op"
+      if op == "declare" then
+        let id : Nat ← getAs x "id"
+        let order : Int ← getAs x "order"
+        let disc ← parseDisc (← getField x "disc")
+        let body ← parseStmts depth (← getField x "body")
+        out := out ++ [Stmt.declare id disc order body]
+      else if op == "include" then
+        let spec : Nat ← getAs x "spec"
+        let rp : Option Nat ← getAs x "rp"
+        let body ← parseStmts depth (← getField x "body")
+        out := out ++ [Stmt.include spec rp body]
+      else if op == "commit" then
+        out := out ++ [Stmt.commit]
+      else throw "bad op"
+    pure (out.foldr Stmts.cons Stmts.nil)
+  | _ => throw "bad statement list"
+
+def seenJson (l : List Seen) : Json := Json.arr (l.map fun d => Json.arr #[toJson d.id, toJson d.path, toJson d.rprefix]).toArray
+
+def progMain (j : Json) : Except String Json := do
+  let p ← parseStmts 64 (← getField j "prog")
+  let auto : Bool ← getAs j "autocommit"
+  if auto then
+    let w := autoStmts {} p {}
+    return Json.mkObj [("log", toJson w.log), ("discs", toJson (w.discs.map fun d => (toJson d.1, toJson d.2))),
+      ("declared", seenJson w.declared)]
+  else
+    let w := runProgram p
+    let commits := w.commits.map fun r =>
+      Json.mkObj (outcomeJson r.outcome ++ [("log", toJson (r.log.map (·.id))),
+        ("discs", toJson (r.log.map fun a => (toJson a.id, toJson a.key)))])
+    return Json.mkObj [("commits", toJson commits),
+      ("pending", toJson (w.core.actions.map fun a => (toJson a.id, toJson a.path))),
+      ("declared", seenJson w.core.declared), ("bad", toJson w.core.bad), ("aborted", toJson w.aborted)]
+
 def main : IO Unit := jsonDriver fun j => do
+  if let .ok _ := getField j "prog" then return (← progMain j)
   let tj ← getField j "top"
   let (top, nodes) ← parseNodes 64 tj
   let kids : Nat → List Act := fun i =>
